@@ -266,7 +266,7 @@ PROPS = {
     },
     "C05": {
         "gens": ["C05"],
-        "rule": "`flavseq <slice|hvec> <cap> <plain|cobs> <p:HH|e:HEX>*`: storage flavours driven through the public Flavor API with arbitrary push / extend sequences past buffer-full (compared up to the first error; finalize after an error must not panic on the plain storages; canaries); `collectcap <framing> <storage> <cap> <piece>*`: a collect_str value whose Display writes the pieces, into bounded storage at every capacity (model: collectStrWith; error kind and buffer contents compared); op lines `sercap <framing> <storage> <cap> <value>` for every capacity 0..L+2 (L = complete output length; 8 capacities around L for long outputs), framing in {plain, cobs, 10 CRC algorithms}, storage in {slice between canary zones, heapless const-generic capacities}, plus `size <value>`; harness oracle: success iff cap >= L, bytes = unbounded output, at the front, rest of buffer untouched, canaries intact; non-trivial = distinct op line with cap within 2 of L",
+        "rule": "header-only values (an index / length / tag followed by nothing) at every capacity; the `size` op also measures std::net / uuid values (is_human_readable must be false behind serialized_size); `flavseq <slice|hvec> <cap> <plain|cobs> <p:HH|e:HEX>*`: storage flavours driven through the public Flavor API with arbitrary push / extend sequences past buffer-full (compared up to the first error; finalize after an error must not panic on the plain storages; canaries); `collectcap <framing> <storage> <cap> <piece>*`: a collect_str value whose Display writes the pieces, into bounded storage at every capacity (model: collectStrWith; error kind and buffer contents compared); op lines `sercap <framing> <storage> <cap> <value>` for every capacity 0..L+2 (L = complete output length; 8 capacities around L for long outputs), framing in {plain, cobs, 10 CRC algorithms}, storage in {slice between canary zones, heapless const-generic capacities}, plus `size <value>`; harness oracle: success iff cap >= L, bytes = unbounded output, at the front, rest of buffer untouched, canaries intact; non-trivial = distinct op line with cap within 2 of L",
         "nontrivial": lambda op, a: True,
         "project": c05_project,
         "classify": lambda op, a: tuple(op.split(" ", 3)[:3]) + (a.split(" ", 2)[0] + (" " + a.split(" ", 2)[1] if a.startswith("err") else ""),),
@@ -362,7 +362,7 @@ PROPS = {
         "project": c12_project,
         "joint": c12_joint,
         "derive_programs": {"quick": 40, "thorough": 300},
-        "rule": "DECIDED per type by the joint rule N >= encMax (= for the kinds the property lists as tight), encMax = the proved exact supremum; heapless::Vec<(), N> for N at every varint-width boundary up to 2^22; derive programs always contain 127/128/129/130-variant enums (all-unit and widest-last); `maxsize <type description>`: T::POSTCARD_MAX_SIZE of a concrete Rust type vs the model's maxSize, for 66 built-in instantiations (every impl: ints, NonZero*, floats, bool, char, unit, PhantomData, Option, Result, arrays, tuples 1..6, the four ranges, refs/Box/Rc/Arc, heapless Vec/String at capacities 0,1,127,128,16383,16384, hand-written derives incl. generics) plus random #[derive(MaxSize)] programs generated from the seed with the WORKSPACE derive (structs unit/tuple/named, enums with 0,1,2,..,127,128,129 variants, nested); harness oracle per type: every candidate (one per variant, extremes of every field) and 24 random values encode within the constant, a buffer of that size suffices, and for the tight kinds the constant is attained; non-trivial = distinct type",
+        "rule": "`maxprobe <type>`: an opportunistic catalogue of ~25 core / std types WITHOUT a MaxSize impl today (Duration, Bound, Wrapping, Reverse, Saturating, Cell, Mutex, atomics, std::net, tuples of arity 7-12): if the crate ever declares a maximum for one, extreme values are measured against it; DECIDED per type by the joint rule N >= encMax (= for the kinds the property lists as tight), encMax = the proved exact supremum; heapless::Vec<(), N> for N at every varint-width boundary up to 2^22; derive programs always contain 127/128/129/130-variant enums (all-unit and widest-last); `maxsize <type description>`: T::POSTCARD_MAX_SIZE of a concrete Rust type vs the model's maxSize, for 66 built-in instantiations (every impl: ints, NonZero*, floats, bool, char, unit, PhantomData, Option, Result, arrays, tuples 1..6, the four ranges, refs/Box/Rc/Arc, heapless Vec/String at capacities 0,1,127,128,16383,16384, hand-written derives incl. generics) plus random #[derive(MaxSize)] programs generated from the seed with the WORKSPACE derive (structs unit/tuple/named, enums with 0,1,2,..,127,128,129 variants, nested); harness oracle per type: every candidate (one per variant, extremes of every field) and 24 random values encode within the constant, a buffer of that size suffices, and for the tight kinds the constant is attained; non-trivial = distinct type",
         "nontrivial": lambda op, a: True,
         "diff_is_witness": False,
         "trusted_base": COMMON_TB + [SERDE_TB, "proc-macro machinery around the derive is MODELLED (only its field/variant arithmetic)", "postcard's `experimental-derive` feature resolves to the registry's postcard-derive 0.1.2 (outside /repo); the checks use the workspace derive source/postcard-derive"],
@@ -391,7 +391,7 @@ PROPS = {
     "C20": {
         "gens": ["C20"],
         "project": c20_project,
-        "rule": "block-boundary values (zero-free runs of 249..256 / 503..510 bytes, bodies of 13..129 bytes around powers of two) through `cobsval` and every stack; `stack crccobs <storage> <cap> <alg> <type> <value>`: serialize_with_flavor(v, CrcModifier::new(Cobs::try_new(storage)?, digest)) for storage in {growable, slice between canaries, heapless} x 4 CRC widths, ample and too-small capacity; harness oracle: output = COBS frame of (plain ++ LE checksum) computed independently, reference-COBS-decoding then CRC-checked decoding recovers the value; `rec override|default <value>`: a recording user flavour with and without a try_extend override (call log compared with emit v / byte-wise pushes; payloads concatenate to the plain encoding); plus the single-layer stacks via `sercap`; non-trivial = distinct op line",
+        "rule": "every encode entry point is handed a value that can be serialised only ONCE; block-boundary values (zero-free runs of 249..256 / 503..510 bytes, bodies of 13..129 bytes around powers of two) through `cobsval` and every stack; `stack crccobs <storage> <cap> <alg> <type> <value>`: serialize_with_flavor(v, CrcModifier::new(Cobs::try_new(storage)?, digest)) for storage in {growable, slice between canaries, heapless} x 4 CRC widths, ample and too-small capacity; harness oracle: output = COBS frame of (plain ++ LE checksum) computed independently, reference-COBS-decoding then CRC-checked decoding recovers the value; `rec override|default <value>`: a recording user flavour with and without a try_extend override (call log compared with emit v / byte-wise pushes; payloads concatenate to the plain encoding); plus the single-layer stacks via `sercap`; non-trivial = distinct op line",
         "nontrivial": lambda op, a: True,
         "diff_is_witness": False,
         "trusted_base": COMMON_TB + [SERDE_TB, "cobs and crc crates MODELLED (see C06, C10)"],
@@ -403,7 +403,7 @@ PROPS = {
         "project": c14_project,
         "derive_programs": {"quick": 30, "thorough": 200},
         "derive_kind": "schema",
-        "rule": "corpus incl. enums with explicit non-monotone discriminants, raw identifiers, ManyOpts / ManyRows at 127..1025 elements; `schemaof <type description>`: the model's impl tables and derive model (`schemaOf`) vs the real `T::SCHEMA` for ~120 described types (every impl row, hand-written derives incl. raw identifiers, seed-generated derive programs); `conf <call tree> <schema> <bytes>`: REAL data recorded when the stream is generated — for ~150 concrete Rust types (every built-in Schema impl: ints, NonZero*, floats, char, str/String/PathBuf, unit, tuples 1..6, arrays, slices/Vec/sets, maps incl. non-string keys, Option, Result, references, ranges, heapless 0.7/0.8, uuid, chrono DateTime<Utc/FixedOffset>, nalgebra matrices, Key, DataModelType/OwnedDataModelType; hand-written derives: unit/newtype/tuple/named, zero-field forms, generic, lifetime-carrying, nested, raw identifiers; seed-generated #[derive(Schema)] programs) and candidate + random values each: the exact serde call tree from a recording serializer (is_human_readable = false), T::SCHEMA, and postcard's bytes. The Lean driver evaluates the specification on them: conforms(tree, schema), the schema-driven reader consuming the bytes exactly, enc(erase tree) = bytes; non-trivial = distinct op line",
+        "rule": "an opportunistic catalogue of ~30 core / std types WITHOUT a Schema impl today: as soon as one exists, recorded call trees of real values are checked against the real SCHEMA (`conf`); corpus incl. enums with explicit non-monotone discriminants, raw identifiers, ManyOpts / ManyRows at 127..1025 elements; `schemaof <type description>`: the model's impl tables and derive model (`schemaOf`) vs the real `T::SCHEMA` for ~120 described types (every impl row, hand-written derives incl. raw identifiers, seed-generated derive programs); `conf <call tree> <schema> <bytes>`: REAL data recorded when the stream is generated — for ~150 concrete Rust types (every built-in Schema impl: ints, NonZero*, floats, char, str/String/PathBuf, unit, tuples 1..6, arrays, slices/Vec/sets, maps incl. non-string keys, Option, Result, references, ranges, heapless 0.7/0.8, uuid, chrono DateTime<Utc/FixedOffset>, nalgebra matrices, Key, DataModelType/OwnedDataModelType; hand-written derives: unit/newtype/tuple/named, zero-field forms, generic, lifetime-carrying, nested, raw identifiers; seed-generated #[derive(Schema)] programs) and candidate + random values each: the exact serde call tree from a recording serializer (is_human_readable = false), T::SCHEMA, and postcard's bytes. The Lean driver evaluates the specification on them: conforms(tree, schema), the schema-driven reader consuming the bytes exactly, enc(erase tree) = bytes; non-trivial = distinct op line",
         "nontrivial": lambda op, a: True,
         "diff_is_witness": True,
         "trusted_base": COMMON_TB + [SERDE_TB, "Spec/Conforms.lean (conforms, schemaParse) is the reading of 'conforms to the schema' this check commits to: kinds, field names and order, variant index/name/kind, arity, element types; struct/enum TYPE names are not compared", "the recording serializer of the harness"],
